@@ -250,11 +250,10 @@ def run_chk(cases_path, traces_text, props):
     return res, flags
 
 
-def run_impl(binp, cases, timeout_per_batch=120):
+def run_impl(binp, cases, timeout_per_batch=60):
     """runs the cases on the crate, isolating a case whose process dies (abort, segfault, hang).
-    returns (traces_text, dead) where dead maps case id -> reason"""
-    dead = {}
-    out_all = []
+    returns (traces_text, dead) where dead maps case id -> reason.  Batches of 200 cases, one process each; more than
+    two batches are spread over a few worker threads (the results are joined in the order of the cases)"""
 
     def run_batch(batch):
         text = "".join(gen_cases.fmt_case(c) for c in batch)
@@ -265,31 +264,66 @@ def run_impl(binp, cases, timeout_per_batch=120):
         except subprocess.TimeoutExpired as ex:
             return 124, (ex.stdout or b"").decode("utf-8", "replace"), "[timeout]"
 
-    def go(batch):
-        if not batch:
-            return
-        rc, out, err = run_batch(batch)
-        blocks, order = parse_blocks(out)
-        done_ids = set()
-        # complete blocks are those followed by 'end': parse_blocks keeps partial too; detect via text
-        complete = set(re.findall(r"^case (\S+)\n(?:(?!^case ).*\n)*?end$", out, re.M))
-        if rc == 0:
-            out_all.append(out)
-            return
-        if len(batch) == 1:
-            c = batch[0]
+    def go(batch, out_all, dead):
+        """a batch whose process fails is not bisected: the harness prints every case as it finishes it, so the first case
+        of the batch without a complete block is the one that died (abort, segfault, hang); it is recorded and the rest
+        of the batch is run in a new process.  After a few dead cases the remainder is not run (the check fails anyway)"""
+        n_dead = 0
+        while batch:
+            rc, out, err = run_batch(batch)
+            if rc == 0:
+                out_all.append(out)
+                return
+            complete = re.findall(r"^case (\S+)\n(?:(?!case ).*\n)*?end$", out, re.M)
+            done = set(complete)
+            k = 0
+            while k < len(batch) and batch[k]["id"] in done:
+                k += 1
+            # keep the complete blocks of the cases before the culprit
+            keep = []
+            cur = None
+            for line in out.splitlines():
+                if line.startswith("case "):
+                    cur = line.split()[1]
+                    buf = [line]
+                elif cur is not None:
+                    buf.append(line)
+                    if line == "end":
+                        if cur in done and cur in {c["id"] for c in batch[:k]}:
+                            keep.append("\n".join(buf) + "\n")
+                        cur = None
+            out_all.append("".join(keep))
+            if k >= len(batch):
+                return          # everything was printed; the process failed afterwards (exit code only)
+            c = batch[k]
             reason = "timeout" if rc == 124 else ("signal %d" % (-rc) if rc < 0 else "exit %d" % rc)
             dead[c["id"]] = reason + ": " + err.strip().splitlines()[-1][:200] if err.strip() else reason
             out_all.append("case %s\nprocess-died %s\nend\n" % (c["id"], reason))
-            return
-        mid = len(batch) // 2
-        go(batch[:mid])
-        go(batch[mid:])
+            n_dead += 1
+            batch = batch[k + 1:]
+            if n_dead >= 4:
+                for c in batch:
+                    dead[c["id"]] = "not run: four cases of its batch had already killed the harness"
+                    out_all.append("case %s\nprocess-died not-run\nend\n" % c["id"])
+                return
+
+    def top(batch):
+        o, d = [], {}
+        go(batch, o, d)
+        return "".join(o), d
 
     B = 200
-    for i in range(0, len(cases), B):
-        go(cases[i:i + B])
-    return "".join(out_all), dead
+    batches = [cases[i:i + B] for i in range(0, len(cases), B)]
+    if len(batches) > 2:
+        from concurrent.futures import ThreadPoolExecutor
+        with ThreadPoolExecutor(max_workers=min(6, len(batches))) as ex:
+            res = list(ex.map(top, batches))
+    else:
+        res = [top(b) for b in batches]
+    dead = {}
+    for _, d in res:
+        dead.update(d)
+    return "".join(t for t, _ in res), dead
 
 
 def canon_drops(d):
@@ -380,6 +414,11 @@ def known_match(prop, viol, known):
                 ok = ok and viol.get("checker") == val
             elif key == "probe":
                 ok = ok and viol.get("probe") == val
+            elif key == "adds_at_most_len":
+                # F16 is about CLAMPED reservations (fix a75268d): every fetch_add on the position counter adds at most the
+                # length, so a wrap needs a huge length.  A trace in which some reservation exceeds the length is another defect
+                adds = [int(m_.group(1)) for m_ in (re.match(r"^L \d+ atom C add (\d+) ", l) for l in (viol.get("impl_trace") or [])) if m_]
+                ok = ok and bool(val) and all(a <= int(env.get("len", 0)) for a in adds)
             elif key == "class":
                 # a wrap of a counter explains wrong deliveries judged by the extracted checkers -- not a dead process,
                 # a hang, a leak, a twin difference, a probe or an undocumented panic
@@ -684,6 +723,37 @@ def random_search(prop, cfg, cases, binp, props_chk, out, label="impl-random"):
             out["divergences"].append(rec)
 
 
+def enum_search(prop, cfg, mode, binp, out, known, seed, budget_s):
+    """widened search, third stage: the systematic family gen_cases.enum_tiny (every kind, lengths 0-2, two threads,
+    every pair of one- and two-operation programs), each configuration under several schedules chosen by the harness,
+    judged by the extracted checkers; stops at the first violation no finding explains or when the budget is used"""
+    t0 = time.time()
+    confs = gen_cases.enum_tiny(prop, mode)
+    r = gen_cases.Rng(seed * 31 + int(prop[1:]) + 5)
+    # deterministic shuffle, so that a budget cut does not always drop the same kinds
+    keyed = sorted(((r.below(1 << 30), i) for i in range(len(confs))))
+    confs = [confs[i] for _, i in keyed]
+    gens = ["random", "random", "pct", "random", "pct", "random"]
+    done = 0
+    for lo in range(0, len(confs), 600):
+        if time.time() - t0 > budget_s:
+            break
+        cases = []
+        for c in confs[lo:lo + 600]:
+            for k, g in enumerate(gens):
+                c2 = json.loads(json.dumps(c))
+                c2["id"] = "%s~%d" % (c["id"], k)
+                c2["gen"] = g
+                c2["seed"] = (seed * 1000003 + lo * 7 + k * 7919 + len(cases)) % (1 << 30)
+                cases.append(c2)
+        random_search(prop, cfg, cases, binp, cfg["chk"], out, label="enumerated")
+        done += len(cases)
+        if [v for v in out["violations"] if known_match(prop, v, known) is None]:
+            break
+    out["enumerated"] = out.get("enumerated", 0) + done
+    return done
+
+
 def impl_dfs(prop, cfg, tiny, binp, props_chk, out, limit, label="impl-dfs"):
     """systematic exploration of the interleavings of tiny configurations ON THE CRATE, without the model: a schedule
     prefix is replayed and the harness lets the remaining steps run in its fixed order; every position of the schedule
@@ -881,6 +951,7 @@ def run_check_inner(prop, tier, seed):
             special(prop, tier, seed, bins, out, problems)
         if tier == "thorough" and cfg is not None and ok and bins.get("wrapping") and cfg["tiny"][1]:
             impl_dfs(prop, cfg, gen_cases.tiny_stream(prop, seed + 57, 40, "wrapping"), bins["wrapping"], cfg["chk"], out, 20000)
+            enum_search(prop, cfg, "wrapping", bins["wrapping"], out, known, seed, 240)
         # widen the search when a proof obligation or the correspondence broke and no failing input is known yet
         if (problems or out["divergences"]) and not [v for v in out["violations"] if known_match(prop, v, known) is None] and cfg is not None and bins:
             # first: all interleavings of tiny configurations on the crate itself
@@ -900,6 +971,9 @@ def run_check_inner(prop, tier, seed):
                     random_search(prop, cfg, rcases, bins[mode], cfg["chk"], out, label="widened")
                 if out["violations"]:
                     break
+            for mode in modes:
+                if mode in bins and not [v for v in out["violations"] if known_match(prop, v, known) is None]:
+                    enum_search(prop, cfg, mode, bins[mode], out, known, seed, 90 if tier == "quick" else 900)
     finally:
         for b in bins.values():
             try:
@@ -1356,6 +1430,10 @@ def nonfused_stream(prop, tier, seed, bins, out, problems, chks):
     out["random_schedules"] += len(cases)
     out["traces_validated_against_impl"] += ok
     extra_coverage.setdefault(prop, {})["non_fused_source_cases"] = ok
+    # the model has such sources too (e_gap): the same histories, under the schedules the harness chose, in lock step
+    before = len(out["divergences"])
+    explore(prop, PROPS[prop], [c for c in rc if c.get("sched") is not None], binp, "non-fused", list(chks), out)
+    extra_coverage.setdefault(prop, {})["non_fused_lock_step_divergences"] = len(out["divergences"]) - before
 
 
 def special_c05(prop, tier, seed, bins, out, problems):
